@@ -3493,4 +3493,96 @@ theorem mixedHistory_undo_bmp (S : Schema) (htr : compatTransB S = true) (hts : 
   opHistory_undo S htr hts doc ops tr' hd hn h
     (mixedOps_residual S htr hts ops (Tr.init doc) rfl rfl ⟨hd, hn⟩ hb hall hres)
 
+/-! #### decidable forms of the operation-level hypotheses, non-vacuity -/
+
+/-- `sbtBlocksOk` is decidable from the document and the operation's arguments -/
+instance (S : Schema) (d : Node) (f t : Nat) (ty : TypeId) : Decidable (sbtBlocksOk S d f t ty) := by
+  unfold sbtBlocksOk; infer_instance
+
+/-- executable form of "the operation strips no mark": no child of a visited textblock carries a mark the new
+    type forbids -/
+def sbtNoStripB (S : Schema) (d : Node) (f t : Nat) (ty : TypeId) : Bool :=
+  (S.docVisits d f t).all (fun v => !S.isTextblockN v.node ||
+    v.node.kids.all (fun c => (badMarks S ty c.marks).isEmpty))
+
+theorem sbtNoStripB_spec (S : Schema) (d : Node) (f t : Nat) (ty : TypeId) (h : sbtNoStripB S d f t ty = true) :
+    ∀ x, ¬ sbtBad S d f t ty x := by
+  intro x ⟨v, hv, htb, c, hc, hx⟩
+  simp only [sbtNoStripB, List.all_eq_true, Bool.or_eq_true, Bool.not_eq_true', List.isEmpty_iff] at h
+  rcases h v hv with h | h
+  · rw [htb] at h; cases h
+  · rw [h c hc] at hx; cases hx
+
+/-- the step a node-level operation records, as far as its guard is concerned (for `remove_node_mark` with a mark
+    type the guard does not depend on the mark found) -/
+def opNodeStep : Op → Option Step
+  | .addNodeMark pos m => some (.addNodeMark pos m)
+  | .removeNodeMark pos (.inl m) => some (.removeNodeMark pos m)
+  | .removeNodeMark pos (.inr t) => some (.removeNodeMark pos ⟨t, []⟩)
+  | .setNodeAttribute pos n v => some (.attr pos n v)
+  | _ => none
+
+/-- **`NodeOpGuard` is decidable**: it is implied by the executable guard `nodeStepGuardB` (PM/OpGuardNode.lean,
+    evaluated by the tie on real documents) of the operation's step on the current document -/
+theorem nodeOpGuard_of_B (S : Schema) (op : Op) (d : Node) (s : Step) (hs : opNodeStep op = some s)
+    (h : nodeStepGuardB S s d = true) : NodeOpGuard S op d := by
+  have g := nodeStepGuardB_family S s d d h
+  cases op with
+  | addNodeMark pos m =>
+    simp only [opNodeStep, Option.some.injEq] at hs; subst hs; exact g
+  | removeNodeMark pos sel =>
+    cases sel with
+    | inl m => simp only [opNodeStep, Option.some.injEq] at hs; subst hs; exact g
+    | inr t => simp only [opNodeStep, Option.some.injEq] at hs; subst hs; exact g
+  | setNodeAttribute pos n v =>
+    simp only [opNodeStep, Option.some.injEq] at hs; subst hs; exact g
+  | step => simp [opNodeStep] at hs
+  | replace => simp [opNodeStep] at hs
+  | mark => simp [opNodeStep] at hs
+  | split => simp [opNodeStep] at hs
+  | join => simp [opNodeStep] at hs
+  | lift => simp [opNodeStep] at hs
+  | wrap => simp [opNodeStep] at hs
+  | setNodeMarkup => simp [opNodeStep] at hs
+  | setBlockType => simp [opNodeStep] at hs
+
+/-! Non-vacuity of the operation-level hypotheses of `structHistory_undo_bmp'` for `set_block_type`: schema
+    `doc: (para|head)*`, `para: text*`, `head: text*` (two plain textblock types), document `doc(para("ab"))`,
+    `set_block_type(0, 4, head)`: the visited textblock is a node with content, nothing is stripped. -/
+private def sbNt (name : String) (dfa : Array DfaState) : NodeType :=
+  { name := name, isText := false, isInline := false, isLeaf := false, isAtom := false,
+    inlineContent := false, isolating := false, defining := false, code := false,
+    dfa := dfa, markSet := some [], attrs := [] }
+
+private def sbDoc : Node := .elem 0 [] [] [.elem 1 [] [] [.text [97, 98] []]]
+
+private def sbS : Schema :=
+  { nodes := #[
+      sbNt "doc" #[⟨true, [(1, 0), (2, 0)]⟩],
+      { sbNt "para" #[⟨true, [(3, 0)]⟩] with inlineContent := true },
+      { sbNt "head" #[⟨true, [(3, 0)]⟩] with inlineContent := true },
+      { sbNt "text" #[⟨true, []⟩] with isText := true, isInline := true, isLeaf := true, isAtom := true }],
+    marks := #[], top := 0, textTy := 3 }
+
+private theorem sb_visits : sbS.docVisits sbDoc 0 4 =
+    [⟨.elem 1 [] [] [.text [97, 98] []], 0, 0, 0⟩, ⟨.text [97, 98] [], 1, 1, 0⟩] := by
+  simp [Schema.docVisits, sbDoc, nodesBetweenP, Node.size, fsize, Node.kids, Schema.tyOf, Node.tyOr]
+
+example : (sbS.nodeType 2).isLeaf = false ∧ sbS.plainType 2 = true ∧ sbtBlocksOk sbS sbDoc 0 4 2 ∧
+    sbtNoStripB sbS sbDoc 0 4 2 = true ∧ bmpDoc sbDoc = true ∧ compatTransB sbS = true ∧
+    (sbS.docVisits sbDoc 0 4).any (fun v => sbS.isTextblockN v.node) = true := by
+  refine ⟨by decide, by decide, ?_, ?_, by decide, by decide, ?_⟩
+  · unfold sbtBlocksOk
+    rw [sb_visits]
+    decide
+  · unfold sbtNoStripB
+    rw [sb_visits]
+    decide
+  · rw [sb_visits]
+    decide
+
+/-- … and of `NodeOpGuard` through its executable form -/
+example : NodeOpGuard sbS (.setNodeAttribute 0 "x" "1") sbDoc :=
+  nodeOpGuard_of_B sbS _ sbDoc _ rfl (by decide)
+
 end PM.C04
